@@ -511,7 +511,32 @@ def sc_describe(lines, viols, sp):
     return out
 
 
-def sc_config(work, binary, verdict, stats, seed, kind, nh, nk, nr, grams, writes, replay_it=True, timeout=900):
+def sc_try_enter(path):
+    """Near-miss steps: wherever a closer is inside the Once of a handle (after its CloseEnter, after its Cancel) and another
+    closer of the SAME handle has started but not entered, insert TryEnter(other) - the step the model's guard forbids. The real
+    sync.Once makes the other closer wait (nothing is logged); code that lets it in is seen entering."""
+    out, started, entered, left = [], {}, set(), set()
+    for lab in path:
+        out.append(lab)
+        m = re.match(r"(\w+)\((\w+)(?:, *(\w+))?\)", lab)
+        if not m:
+            continue
+        name, a, b = m.groups()
+        if name == "CloseStart":
+            started[a] = b
+        elif name == "CloseEnter":
+            entered.add(a)
+        if name in ("Unref", "UClose"):
+            left.add(a)
+        if name in ("CloseEnter", "Cancel") and a in started:
+            for k2, h2 in started.items():
+                if k2 != a and h2 == started[a] and k2 not in entered:
+                    out.append("TryEnter(%s)" % k2)
+                    entered.add(k2)      # tried once
+    return out
+
+
+def sc_config(work, binary, verdict, stats, seed, kind, nh, nk, nr, grams, writes, replay_it=True, timeout=900, tier="quick"):
     key = "SharedConn_%s_h%dk%dr%dg%dw%d" % (kind, nh, nk, nr, grams, writes)
     consts = ["NHandles = %d" % nh, "NClosers = %d" % nk, "NReaders = %d" % nr, "MaxGrams = %d" % grams, "MaxWrites = %d" % writes]
     d = Dir(work.path("mc-" + key))
@@ -524,6 +549,13 @@ def sc_config(work, binary, verdict, stats, seed, kind, nh, nk, nr, grams, write
         return
     g = Graph(dot)
     paths, _ = g.plan(seed)
+    # near-miss variants of the covering paths (kept in addition to them, so the edge cover itself is undisturbed)
+    tries = [q for p, q in ((p, sc_try_enter(p)) for p in paths) if len(q) != len(p)]
+    random.Random(seed).shuffle(tries)
+    tries = tries[:1200 if tier == "quick" else 20000]
+    with LOCK:
+        stats["near_miss_paths"] = stats.get("near_miss_paths", 0) + len(tries)
+    paths = paths + tries
     job = {"kind": kind, "handles": SC_NAMES["h"][:nh], "closers": SC_NAMES["k"][:nk], "readers": SC_NAMES["r"][:nr]}
     replay(work, binary, "sc", paths, job, consts, SC_PREDS, key, seed, stats, verdict, graph=g, cover_key=key)
 
@@ -534,7 +566,7 @@ def sc_run(work, binary, verdict, stats, tier, seed):
     else:
         cfgs = [("udp", 2, 3, 2, 1, 1, True), ("udp", 3, 3, 1, 0, 1, True), ("udp", 2, 2, 2, 2, 1, True), ("tcp", 3, 3, 2, 0, 0, True),
                 ("udp", 3, 3, 2, 1, 1, False)]
-    parallel([lambda c=c: sc_config(work, binary, verdict, stats, seed, *c[:6], replay_it=c[6], timeout=1500) for c in cfgs], 2)
+    parallel([lambda c=c: sc_config(work, binary, verdict, stats, seed, *c[:6], replay_it=c[6], timeout=1500, tier=tier) for c in cfgs], 2)
 
 
 def parallel(fns, n):
